@@ -16,13 +16,15 @@
    * the binarising path runs close_by_one_objectwise_fbarray (Model/ConceptConstruction.v) on
      the binarised formal context (or on its transpose, reading the intents).
    * names are opaque ids. *)
-From FCA Require Export Model.ConceptConstruction Model.PatternStructure.
+From FCA Require Export Model.ConceptConstruction Model.LatticeOrder Model.PatternStructure.
 
 Record mvctx := mkMV {
   mv_n : nat;                                  (* _n_objects = len(data) *)
   mv_cols : list PatternStructure.column;      (* pattern_structures *)
   mv_onames : list nat;
-  mv_pnames : list nat                         (* ps.name of every structure *)
+  mv_pnames : list nat;                        (* ps.name of every structure (pattern_types order) *)
+  mv_anames : list nat                         (* attribute_names (the order of the data columns); no
+                                                  modelled function reads it since the D62 repair *)
 }.
 
 Definition ddict := list (nat * desc).
@@ -172,3 +174,44 @@ Definition bin_bottom (K : mvctx) : list nat :=
    conventional closure of the empty set is not *)
 Definition guard_D17 (K : mvctx) : bool :=
   negb (is_nil (bin_bottom K) && negb (is_nil (mv_cl K []))).
+
+(* ---- the by-name views.  The structures are kept in the order of the pattern_types dict,
+   attribute_names in the order of the data columns; the two orders may differ. *)
+
+(* PatternConcept.from_objects, all four views (objects by index):
+     intent_i = K.intention_i(objects_i)
+     intent   = {K.pattern_structures[m_i].name: v for m_i, v in intent_i.items()}   (after the D62 repair)
+     objects  = [K.object_names[i] for i in objects_i] *)
+Record pconcept_views := mkPCV {
+  pv_ext_i : list nat; pv_ext : list nat; pv_int_i : ddict; pv_int : list (nat * desc)
+}.
+Definition pc_from_objects_views (K : mvctx) (objs : list nat) (is_extent : bool) : pconcept_views :=
+  let c := pc_from_objects K objs is_extent in
+  mkPCV (pc_ext c) (map (fun g => nth g (mv_onames K) 0) (pc_ext c)) (pc_int c)
+        (map (fun p => (nth (fst p) (mv_pnames K) 0, snd p)) (pc_int c)).
+
+(* MVContext.describe_pattern(data: {name: description}):
+     pattern_names = [ps.name ...]; data_i = {pattern_names.index(k): v}   (first occurrence, ValueError)
+     one text per entry, empty texts (AttributePS with False) dropped.
+   The model returns the (structure name, description) pairs that are printed; None = ValueError *)
+Fixpoint describe_entries (K : mvctx) (data : list (nat * desc)) : option (list (nat * desc)) :=
+  match data with
+  | [] => Some []
+  | (nm, d) :: rest =>
+      match first_index_from 0 (mv_pnames K) nm, describe_entries K rest with
+      | Some i, Some l =>
+          Some (match mv_col K i, d with
+                | CAttr _, DAttr false => l
+                | _, _ => (nth i (mv_pnames K) 0, d) :: l
+                end)
+      | _, _ => None
+      end
+  end.
+
+(* ---- the order of the lattice object: PatternConcept.__le__ reads the extents exactly as
+   AbstractConcept.__le__ does (support shortcut, then membership), and ConceptLattice is the
+   POSet of Model/LatticeOrder.v over the concept list *)
+Definition pc_concept (p : pconcept) : concept := (pc_ext p, []).
+Definition mv_children (L : list pconcept) (i : nat) : list nat := children_nocache (map pc_concept L) i.
+Definition mv_parents (L : list pconcept) (i : nat) : list nat := parents_nocache (map pc_concept L) i.
+Definition mv_leq (L : list pconcept) (i j : nat) : bool := leq_i (map pc_concept L) i j.
